@@ -77,6 +77,7 @@ func (w *WatcherHub) DeleteWatcher(sub chan []*proto.Event, lock bool) {
 // Stream push events to watchers.
 func (w *WatcherHub) Stream(input chan []*proto.Event) {
 	for item := range input {
+		var slow []chan []*proto.Event
 		w.RLock()
 		for sub := range w.subs {
 			select {
@@ -85,10 +86,15 @@ func (w *WatcherHub) Stream(input chan []*proto.Event) {
 				// drop slow consumer
 				klog.InfoS("drop slow consumer", "chan", sub, "bufSize", watchBuffer)
 				w.metricCli.EmitCounter("drop.slow.watcher", 1)
-				go w.DeleteWatcher(sub, true)
+				slow = append(slow, sub)
 			}
 		}
 		w.RUnlock()
+		// remove the skipped consumers before the next batch is taken, so that none of them
+		// is handed a later batch after having missed this one
+		for _, sub := range slow {
+			w.DeleteWatcher(sub, true)
+		}
 	}
 
 	w.Lock()
